@@ -9,14 +9,15 @@
    Guards are the exact complements of the refuted classes; each refuted class has its `_refuted` witness
    (known_findings.tsv: squeeze-singleton, Image2D.fun2par|batch, StepExpansion float boundaries). *)
 From CV Require Import Base.Tac Base.Cmp Base.LinAlg Base.QcLin Model.C13_Geom Model.C13_Float Model.C13_Eq
-     Proofs.C13_Lists Proofs.C13_Index Proofs.C13_Geom Proofs.C13_Step Proofs.C13_StepQ Proofs.C13_All Proofs.C13_FloatW Proofs.C13_Vector Proofs.C13_KLW Proofs.C13_Fun2par Proofs.C13_Eq.
+     Proofs.C13_Lists Proofs.C13_Index Proofs.C13_Geom Proofs.C13_Step Proofs.C13_StepQ Proofs.C13_All Proofs.C13_FloatW Proofs.C13_Vector Proofs.C13_KLW Proofs.C13_MatMap Proofs.C13_Fun2par Proofs.C13_Eq.
 From Coq Require Import QArith Qcanon.
 From Coq Require PrimFloat.   (* not imported: Print Assumptions then shows the primitives with their full names *)
 
 (* ============ round trips fun2par(par2fun(p)) = p ============ *)
 
 (* every geometry of the model (Continuous1D, Discrete, defaults, Continuous2D, Image2D C/F/visual_only,
-   MappedGeometry with ANY elementwise map/imap pair such that imap (map x) = x (nested too), KLExpansion with any number m >= 2 of modes, StepExpansion on any
+   MappedGeometry with ANY elementwise map/imap pair such that imap (map x) = x, or with a matrix map M (acting on the
+   whole array, possibly changing its size) and a left inverse R @ (M @ x) = x (nested too), KLExpansion with any number m >= 2 of modes, StepExpansion on any
    index family that is a partition into non-empty steps), every size, a single parameter vector (k = 1) and,
    for the geometries whose two maps are column-wise, every batch of k columns *)
 Theorem C13_roundtrip : forall (g : geom) (k : nat) (a : arr Qc),
@@ -41,6 +42,16 @@ Theorem C13_mapped_instances :
      let y := ((a * x + b) / (c * x + d))%Qc in ((d * y - b) / (- c * y + a))%Qc = x).
 Proof. split; [exact affine_inverse | exact moebius_inverse]. Qed.
 Print Assumptions C13_mapped_instances.
+
+(* a matrix map with a left inverse (prolongation/injection, permutation, cumulative sum/difference ...): every vector and
+   every batch of columns comes back *)
+Theorem C13_roundtrip_matrix_map : forall (M R : list (list Qc)) (n k : nat) (a : arr Qc),
+  n = mat_cols M -> mat_cols R = length M -> length R = n ->
+  (forall x, length x = n -> qmatvec R (qmatvec M x) = x) ->
+  shp a = vb_shape n k -> length (dat a) = (n * k)%nat ->
+  obind (matmap M a) (matmap R) = Some a.
+Proof. exact matmap_left_inverse. Qed.
+Print Assumptions C13_roundtrip_matrix_map.
 
 (* Continuous2D, any element type, any grid sizes except the single point, vectors and batches *)
 Theorem C13_roundtrip_continuous2d : forall (A : Type) (d : A) (n1 n2 k : nat) (a : arr A),
@@ -234,6 +245,26 @@ Theorem C13_placement_step_fun2par : forall (N : nat) (idx : list (list nat)) (p
 Proof. exact step_fun2par_value. Qed.
 Print Assumptions C13_placement_step_fun2par.
 
+(* the column-wise clause for a matrix map: column j of M @ X is M @ (column j of X); shapes (n,k) -> (rows,k) *)
+Theorem C13_batch_columnwise_matrix_map : forall (M : list (list Qc)) (n k : nat) (a : arr Qc), n = mat_cols M -> shp a = [n; k] ->
+  exists c, matmap M a = Some c /\ shp c = [length M; k] /\ length (dat c) = (length M * k)%nat /\
+    forall j, (j < k)%nat ->
+      matmap M (mkArr [n] (col_of 0%Qc n k j (dat a))) = Some (mkArr [length M] (col_of 0%Qc (length M) k j (dat c))).
+Proof. exact matmap_columnwise. Qed.
+Print Assumptions C13_batch_columnwise_matrix_map.
+
+(* ... and for the MappedGeometry built on it, over any wrapped geometry whose own par2fun is column-wise on the batch *)
+Theorem C13_batch_columnwise_mapped_matrix : forall (g : geom) (M : list (list Qc)) (Mi : option (list (list Qc))) (pd k : nat) (a b : arr Qc),
+  shp b = [mat_cols M; k] -> g_par2fun g a = Some b ->
+  (forall j, (j < k)%nat -> g_par2fun g (mkArr [pd] (col_of 0%Qc pd k j (dat a)))
+                            = Some (mkArr [mat_cols M] (col_of 0%Qc (mat_cols M) k j (dat b)))) ->
+  exists c, g_par2fun (GMappedLin g M Mi) a = Some c /\ shp c = [length M; k] /\ length (dat c) = (length M * k)%nat /\
+    forall j, (j < k)%nat ->
+      g_par2fun (GMappedLin g M Mi) (mkArr [pd] (col_of 0%Qc pd k j (dat a)))
+      = Some (mkArr [length M] (col_of 0%Qc (length M) k j (dat c))).
+Proof. exact mappedlin_columnwise. Qed.
+Print Assumptions C13_batch_columnwise_mapped_matrix.
+
 (* ============ reported shapes ============ *)
 (* par2fun of an array of the reported par_shape succeeds and has the reported fun_shape (declared, or for
    MappedGeometry inferred from par2fun(ones)); par_dim = prod par_shape by definition of the model *)
@@ -252,6 +283,15 @@ Theorem C13_shapes_fun2par : forall (g : geom) (f : arr Qc),
   exists p, g_fun2par g f = Some p /\ shp p = g_par_shape g /\ length (dat p) = g_par_dim g.
 Proof. exact g_fun2par_shape. Qed.
 Print Assumptions C13_shapes_fun2par.
+
+(* shapes on BATCHES, geometries with vector-valued functions (Continuous1D, Discrete, KL, Step, Mapped of either kind over
+   those, nested): k parameter columns give k function columns of the reported fun_dim.  For a matrix map fshape is
+   [rows of M]: fun_shape is the shape of what the map returns, not the wrapped geometry's *)
+Theorem C13_shapes_batch : forall (g : geom), g_is1d g -> g_shape_ok g -> forall k (a b : arr Qc),
+  shp a = vb_shape (g_par_dim g) k -> length (dat a) = (g_par_dim g * k)%nat -> g_par2fun g a = Some b ->
+  shp b = vb_shape (fdim g) k /\ length (dat b) = (fdim g * k)%nat.
+Proof. exact g_par2fun_vb. Qed.
+Print Assumptions C13_shapes_batch.
 
 Theorem C13_shapes_refuted : exists n1 n2 (a b : arr nat),
   shp a = [(n1 * n2)%nat] /\ length (dat a) = (n1 * n2)%nat /\
@@ -399,10 +439,15 @@ Example C13_example :
                 (fun x => qc (-1 # 2) * x)%Qc (Some (fun y => y / qc (-1 # 2))%Qc)) /\
   g_ok (GImage 2 3 OF false) /\ g_shape_ok (GImage 2 3 OF false) /\
   g_ok (GStep 7 (step_indices_F grid01_7 3) PMax) /\ g_inv_ok (GStep 7 (step_indices_F grid01_7 3) PMax) /\
+  (* a permutation matrix with itself as inverse satisfies the round-trip guard; a size-changing matrix map (2 -> 3
+     nodes) satisfies the shape guard and its reported fun_shape is the shape of the map's output *)
+  g_ok (GMappedLin (GCont1D 2) [[0; 1]; [1; 0]]%Qc (Some [[0; 1]; [1; 0]]%Qc)) /\
+  g_shape_ok (GMappedLin (GCont1D 2) [[1; 0]; [1; 1]; [0; 1]]%Qc None) /\
+  g_fun_shape (GMappedLin (GCont1D 2) [[1; 0]; [1; 1]; [0; 1]]%Qc None) = Some [3%nat] /\
   g_par2fun (GImage 2 3 OF false) (mkArr [6%nat] (map qcn [0; 1; 2; 3; 4; 5]%nat))
     = Some (mkArr [2; 3]%nat (map qcn [0; 2; 4; 1; 3; 5]%nat)).
 Proof.
-  split; [|split; [|split; [|split; [|split]]]].
+  split; [|split; [|split; [|split; [|split; [|split; [|split; [|split]]]]]]].
   - cbn [g_ok]. split; [|split; [|lia]].
     + eexists. split; [reflexivity|]. intros x. cbv beta. field. intros E; apply Q2Qc_eq_iff in E; discriminate E.
     + eexists. split; [reflexivity|]. intros x. cbv beta. apply affine_inverse. intros E; apply Q2Qc_eq_iff in E; discriminate E.
@@ -410,5 +455,10 @@ Proof.
   - cbn; lia.
   - cbn [g_ok]. split; [apply step_wf_b_sound; vm_compute; reflexivity|]. split; [lia|]. vm_compute. lia.
   - cbn [g_inv_ok]. split; [vm_compute; repeat constructor; discriminate | vm_compute; lia].
+  - cbn [g_ok g_is1d g_shape_ok fshape]. split; [|repeat split].
+    exists [[0; 1]; [1; 0]]%Qc. split; [reflexivity|]. split; [reflexivity|]. split; [reflexivity|].
+    intros x Hx. destruct x as [|u [|v [|? ?]]]; try discriminate. cbn. f_equal; [ring | f_equal; ring].
+  - cbn [g_shape_ok fshape]. split; [exact I | reflexivity].
+  - vm_compute. reflexivity.
   - vm_compute. reflexivity.
 Qed.
